@@ -1060,3 +1060,19 @@ VARIANTS += [
     V('C12-M34', 'M', ('C12',), TH, 'Thread.run', r"(\n        )try:\n(            if self\._target is not None:)", r"\1self._future_ = concurrent.futures.Future()\1try:\n\2", ('C12-12',), note='run() replaces the future made by the constructor'),
     V('C12-E33', 'E', ALL, TH, 'Thread', r"self\._future_: concurrent\.futures\.Future = concurrent\.futures\.Future\(\)", "self._future_ = concurrent.futures.Future()", note='annotation dropped'),
 ]
+
+VARIANTS += [
+    V('C19-E30', 'E', ALL, ST, 'EagerBatcher.__iter__', r"while n < batchsize:", "while len(batch) < batchsize:", note='guard on the list itself'),
+    V('C19-E31', 'E', ALL, ST, 'EagerBatcher.__iter__', r"while n < batchsize:\n(\s+)t = deadline", r"while True:\n\1if n >= batchsize:\n\1    break\n\1t = deadline", note='guard moved into the loop'),
+    V('C19-E32', 'E', ALL, ST, 'EagerBatcher.__iter__', r"while n < batchsize:", "while not (batchsize <= n):", note='guard negated and mirrored'),
+    V('C19-M30', 'M', ('C19',), ST, 'EagerBatcher.__iter__', r'\A.*\Z', lambda m: m.group(0).replace('            n = 1\n', '').replace('while n < batchsize:', 'while True:').replace('                n += 1\n', '                if len(batch) == batchsize:\n                    break\n'), ('C19-2',), note='seeded C19-r4m1 shape'),
+    V('C09-E30', 'E', ALL, WK, 'Worker._get_input_batch', r"while n < batchsize:", "while len(out) < batchsize:", note='guard on the list itself'),
+    V('C09-M30', 'M', ('C09',), WK, 'Worker._get_input_batch', r"while n < batchsize:", "while len(out) <= batchsize:", ('C09-2',), note='non-strict guard on the list'),
+]
+
+SO = 'socket.py'
+VARIANTS += [
+    V('C18-M30', 'M', ('C18',), SO, 'write_record', r"(\n    )data_bytes = encode\(data, encoder\)", r"\1if isinstance(data, bytes):\1    encoder = 'none'\1data_bytes = encode(data, encoder)", ('C18-12',), note='seeded C18-r4m2 shape'),
+    V('C18-M31', 'M', ('C18',), SO, 'SocketClient.stream', r"(\n(\s+))y = fut\.result\(timeout=response_timeout - \(perf_counter\(\) - t0\)\)", r"\1if perf_counter() - t0 > response_timeout:\1    raise TimeoutError\1y = fut.result(timeout=response_timeout - (perf_counter() - t0))", ('C18-13',), note='seeded C18-r4m1 shape'),
+    V('C18-E30', 'E', ALL, SO, 'SocketClient.stream', r"y = fut\.result\(timeout=response_timeout - \(perf_counter\(\) - t0\)\)", r"remaining = response_timeout - (perf_counter() - t0)\n                y = fut.result(timeout=remaining)", note='remaining time bound to a local'),
+]
